@@ -1,10 +1,46 @@
-import RgVerif.Model.Sx
+import RgVerif.Driver.SearcherCommon
+import RgVerif.Spec.LineSafe
 namespace RgVerif.Driver.C01
-open RgVerif
+open RgVerif RgVerif.Searcher RgVerif.GrepSpec RgVerif.Driver.SearcherCommon
 
-/-- Request handler of property C01: `cmd` is the first token of the line, `args` the rest. -/
+/-- `c01.linesafe cfg matcher inp` → `1`/`0`: the certificate check of theorem `C01_fast_cert`
+(`table-miss` if the table lacks an answer the check needed). -/
+def handleLineSafe (args : List Sx) : String :=
+  match args with
+  | [cfg, m, inp] =>
+    match parseCfg cfg, parseMatcher m, inp.bytes? with
+    | some cfg, some mk, some inp =>
+      let go := fun (missing : Bool) =>
+        let m := mk inp missing
+        let sl := (splitLines cfg.lineTerm.asByte inp).map fun l => (l, lineSel cfg m l)
+        lineSafeCheck cfg m inp sl
+      if go false == go true then (if go false then "1" else "0") else "table-miss"
+    | _, _, _ => "bad-op"
+  | _ => "bad-op"
+
+/-- `c01.guard lt inp` → `1` iff no line of the input ends in a bare `\n` under CRLF (guard of `C01_partial`). -/
+def handleGuard (args : List Sx) : String :=
+  match args with
+  | [lt, inp] =>
+    match parseLT lt, inp.bytes? with
+    | some lt, some inp =>
+      if (splitLines lt.asByte inp).all fun l => !bareLf lt l then "1" else "0"
+    | _, _ => "bad-op"
+  | _ => "bad-op"
+where
+  bareLf (lt : Lines.LineTerm) (line : Bytes) : Bool :=
+    lt == .crlf && line.getLast? == some 10 && !(line.dropLast.getLast? == some 13)
+
+/-- Request handler of property C01 (searcher level): `c01.model cfg matcher inp sink` (M),
+`c01.spec cfg selbits inp` (S: grep model for the property's selection bits), `c01.linesafe`, `c01.guard`,
+`c01.path cfg matcher`. -/
 def handle (cmd : String) (args : List Sx) : String :=
-  match cmd, args with
-  | _, _ => "bad-op"
+  match cmd with
+  | "c01.model" => handleModel args
+  | "c01.spec" => handleSpec args
+  | "c01.path" => handlePath args
+  | "c01.linesafe" => handleLineSafe args
+  | "c01.guard" => handleGuard args
+  | _ => "bad-op"
 
 end RgVerif.Driver.C01
